@@ -16,18 +16,17 @@ namespace Numqi.Ent
 /-- shape of the extended system: `(dimA, dimB, …, dimB)` with `kext` copies of B -/
 def sxDims (dA dB kext : Nat) : List Nat := dA :: List.replicate kext dB
 
+/-- read a multi-index through a map of positions: `result[i] = l[σ i]` -/
+def gatherPos (σ : Nat → Nat) (l : List Nat) : List Nat := (List.range l.length).map fun i => l.getD (σ i) 0
+
 /-- exchange the last two entries of a multi-index (`reshape(-1,dB,dB).transpose(0,2,1)`, `symext.py:18`) -/
 def swapLastTwo (l : List Nat) : List Nat :=
-  match l.reverse with
-  | v :: u :: rest => (u :: v :: rest).reverse
-  | _ => l
+  gatherPos (fun i => if i + 1 = l.length then i - 1 else if i + 2 = l.length then i + 1 else i) l
 
 /-- move the last copy to the front of the copies, keeping party A in place
 (`transpose(…, [0]+list(range(2,kext+1))+[1])`, `symext.py:20`): `(a, c_1, …, c_k) ↦ (a, c_k, c_1, …, c_{k-1})` -/
 def rotateCopies (l : List Nat) : List Nat :=
-  match l with
-  | a :: c => a :: (c.getLastD 0 :: c.dropLast)
-  | [] => []
+  gatherPos (fun i => if i = 0 then 0 else if i = 1 then l.length - 1 else i - 1) l
 
 /-- the index arrays `get_symmetric_extension_index_list(dimA, dimB, kext, kind='2d')` as functions on flat indices:
 number 0 is always present, number 1 only for `kext > 2` -/
@@ -72,7 +71,7 @@ def sxWitness {α : Type} [Add α] [Zero α] [Mul α] [One α] [Conj α] (dA dB 
   fun r c => (terms.map fun t => t.1 * sxAmp dA dB kext t.2.1 t.2.2 r * conj (sxAmp dA dB kext t.2.1 t.2.2 c)).sum
 
 /-- the state the witness must reduce to, with the norms of the traced-out copies: `Σ_k w_k (Σ_v b_k[v] conj b_k[v])^(kext-1) a_k a_kᴴ ⊗ b_k b_kᴴ` -/
-def sxSepState {α : Type} [Add α] [Zero α] [Mul α] [One α] [Conj α] (dA dB kext : Nat) (terms : List (α × (Nat → α) × (Nat → α))) :
+def sxSepState {α : Type} [Add α] [Zero α] [Mul α] [One α] [Conj α] (_dA dB kext : Nat) (terms : List (α × (Nat → α) × (Nat → α))) :
     Nat → Nat → α :=
   fun i j =>
     (terms.map fun t =>
